@@ -203,6 +203,8 @@ class SymText:
         return self.rstrip(chars).lstrip(chars)
 
     def translate(self, table):
+        if _isinstance(table, dict) and any(v is None or (not _isinstance(v, builtins.int) and _len(v) != 1) for v in table.values()):
+            return self._translate_multi(table)
         out = []
         for c in self.cps:
             if _isinstance(c, SymInt):
@@ -224,6 +226,32 @@ class SymText:
                 else:
                     v = table.get(c, c)
                     out.append(v if _isinstance(v, builtins.int) else _ord(v))
+        return self._wrap(out)
+
+    def _translate_multi(self, table):
+        """str.translate with a table whose entries may be strings of any length / None: forks per character."""
+        out = []
+        keys = list(table.keys())
+        for c in self.cps:
+            if not _isinstance(c, SymInt):
+                v = table.get(c, c)
+                if v is None:
+                    continue
+                out += [v] if _isinstance(v, builtins.int) else [_ord(x) for x in v]
+                continue
+            hit = None
+            if _sb(z3.Or(*[c.z == k for k in keys])):
+                for k in keys:
+                    if _sb(c.z == k):
+                        hit = k
+                        break
+            if hit is None:
+                out.append(c)
+            else:
+                v = table[hit]
+                if v is None:
+                    continue
+                out += [v] if _isinstance(v, builtins.int) else [_ord(x) for x in v]
         return self._wrap(out)
 
     def split(self, sep=None, maxsplit=-1):
